@@ -1347,6 +1347,38 @@ Section CreateT.
   Theorem create_total w : (exists a c w', C03.create fpb fpnc shuffle strat pre outs w = Ok a c w') \/
                            (exists w', C03.create fpb fpnc shuffle strat pre outs w = Refused w').
   Proof. destruct (C03.create fpb fpnc shuffle strat pre outs w); [left | right]; eauto. Qed.
+
+  (* ---- create with signing: any failure, for lack of funds or while signing, leaves the wallet as it was
+     with the transaction's own inputs released *)
+  Variable can_sign : list N -> bool.
+
+  Theorem create_signed_failure w' :
+    (create_signed fpb fpnc shuffle strat pre outs can_sign w0 = Insufficient w' \/
+     create_signed fpb fpnc shuffle strat pre outs can_sign w0 = SignFails w') ->
+    w' = release (map iid pre) w0.
+  Proof.
+    unfold create_signed. destruct (create w0) as [added ch w2|w2] eqn:C.
+    - destruct (can_sign _); intros [H|H]; try discriminate. inversion H; subst w'. clear H.
+      destruct (create_ok added ch w2 C) as [Hnd [Hfree [_ [Hw _]]]]. subst w2.
+      assert (G : good_added w1 added).
+      { split; [|assumption]. intros u Hu. apply in_unreserved. apply w1_free. apply Hfree; assumption. }
+      rewrite (release_reserve pre w1 w1_nodup added G). unfold w1. apply release_after_reserve.
+    - intros [H|H]; try discriminate. inversion H; subst w'. apply (create_refused w2 C).
+  Qed.
+
+  Theorem create_signed_built added ch w' :
+    create_signed fpb fpnc shuffle strat pre outs can_sign w0 = Built added ch w' ->
+    create w0 = Ok added ch w' /\ can_sign (map iid pre ++ map uid added) = true.
+  Proof.
+    unfold create_signed. destruct (create w0) as [a c w2|w2]; [|discriminate].
+    destruct (can_sign _) eqn:S; [|discriminate]. intro H; inversion H; subst. auto.
+  Qed.
+
+  Theorem create_signed_total :
+    (exists a c w', create_signed fpb fpnc shuffle strat pre outs can_sign w0 = Built a c w') \/
+    (exists w', create_signed fpb fpnc shuffle strat pre outs can_sign w0 = Insufficient w') \/
+    (exists w', create_signed fpb fpnc shuffle strat pre outs can_sign w0 = SignFails w').
+  Proof. destruct (create_signed fpb fpnc shuffle strat pre outs can_sign w0); eauto. Qed.
 End CreateT.
 
 
@@ -1413,6 +1445,20 @@ Theorem release_on_failure fpb fpnc shuffle (shuffle_perm : forall l, Permutatio
 Proof.
   intros Hf strat pre outs w0 Hn w' H.
   destruct (create_refused fpb fpnc shuffle shuffle_perm Hf strat pre outs w0 Hn w' H) as [E _]. subst w'.
+  split; [reflexivity|]. split; [intros i Hi; apply release_not_reserved; assumption|].
+  intros i Hi. apply in_reserved_ids in Hi. destruct Hi as [u [Hu E]]. apply in_reserved_ids. exists u. split; [|assumption].
+  unfold release in Hu. apply in_set_reserved in Hu. destruct Hu as [[Hu _]|[Hu _]]; [assumption | discriminate].
+Qed.
+
+Theorem release_on_any_failure fpb fpnc shuffle (shuffle_perm : forall l, Permutation l (shuffle l)) :
+  0 <= fpb -> forall strat pre outs can_sign w0, NoDup (map (fun e : utxo * bool => uid (fst e)) w0) -> forall w',
+  (create_signed fpb fpnc shuffle strat pre outs can_sign w0 = Insufficient w' \/
+   create_signed fpb fpnc shuffle strat pre outs can_sign w0 = SignFails w') ->
+  w' = release (map iid pre) w0 /\ (forall i, In i (map iid pre) -> ~ In i (reserved_ids w')) /\
+  (forall i, In i (reserved_ids w') -> In i (reserved_ids w0)).
+Proof.
+  intros Hf strat pre outs can_sign w0 Hn w' H.
+  pose proof (create_signed_failure fpb fpnc shuffle shuffle_perm Hf strat pre outs w0 Hn can_sign w' H) as E. subst w'.
   split; [reflexivity|]. split; [intros i Hi; apply release_not_reserved; assumption|].
   intros i Hi. apply in_reserved_ids in Hi. destruct Hi as [u [Hu E]]. apply in_reserved_ids. exists u. split; [|assumption].
   unfold release in Hu. apply in_set_reserved in Hu. destruct Hu as [[Hu _]|[Hu _]]; [assumption | discriminate].
